@@ -16,7 +16,7 @@ LEVEL = "exploration"
 RULE = ("random consumer sequences (length 1-10, repeated and reordered, producers shared between lists) over pools of finished "
         "results; every built-in command of the CSV and NetCDF library sets is a consumer; distinct by (library set, rank, sequence "
         "of consumer command names up to 4, list arities)")
-REQUIRED_COUNTERS = ["digest_rechecks", "consumer_executions", "results_watched", "model_runs", "nonfinite_fields_watched"]
+REQUIRED_COUNTERS = ["digest_rechecks", "consumer_executions", "results_watched", "model_runs", "nonfinite_fields_watched", "large_rasters_watched"]
 ASSUMPTIONS = ["values stored under the mask are excluded from the digest", "NaN / infinite cells are compared by their bits"]
 
 
@@ -39,6 +39,10 @@ def cases(ctx):
                     nf["data"][j] = rng.choice(["nan", "inf", "-inf"])
             case["nonfinite"] = nf
         yield case
+    from mpv import big
+    for i in range(ctx.n(3, 30)):
+        j = i * ctx.nshards + ctx.shard
+        yield {"kind": "big", "cmd": big.NAMES[(j * 5) % len(big.NAMES)], "shape": list(big.SHAPES[(j + 3) % len(big.SHAPES)]), "rseed": rng.randrange(10 ** 9), "masked": j % 3 != 2}
     from mpv import models
     for i in range(ctx.n(300, 15000)):
         yield {"kind": "model", "model": models.gen_model(rng, n_ops=rng.randint(2, 12), sinks=True, libs="nc" if i % 3 == 0 else "csv")}
@@ -119,9 +123,40 @@ def run_model(ctx, case):
         ctx.fail("%s:mutates-input" % consumer, {"in_model": True, "consumer": cname, "mutated_result": victim, "mutated_produced_by": vtype, "text": text[:1500]})
 
 
+def run_big(ctx, case):
+    """Rasters of more than a million cells (where saving a copy is tempting): the inputs are unchanged after the command."""
+    from mpv import big
+    cmd, shape = case["cmd"], tuple(case["shape"])
+    params, fuzzy_in = big.ELEMENTWISE[cmd], cmd in arr.FUZZY_INPUT
+    inputs = big.gen_inputs(cmd, shape, case["rseed"], case["masked"])
+    before = [arr.digest(a) for a in inputs]
+    out, prog = arr.run_cmd(cmd, inputs, params, fuzzy_inputs=fuzzy_in)
+    ctx.count("consumer_executions")
+    ctx.count("large_rasters_watched")
+    ctx.count("results_watched", len(inputs))
+    ctx.feature(("big", cmd, len(shape), case["masked"]))
+    for rep in range(2):
+        ctx.count("digest_rechecks", len(inputs))
+        for k, a in enumerate(inputs):
+            if arr.digest(a) != before[k]:
+                ctx.fail("%s:mutates-input" % cmd, {"large_raster": list(shape), "input": k, "after": "first use" if rep == 0 else "second use", "consumer_outcome": out.err})
+                return
+        if rep == 0:
+            again = dict(params)
+            names = arr.STANDIN_NAMES[:len(inputs)]
+            style = arr.INPUT_STYLE[cmd]
+            again.update({"InFieldName": names[0]} if style == "one" else {"A": names[0], "B": names[1]} if style == "ab" else {"InFieldNames": list(names)})
+            out2 = arr.invoke(prog, cmd, "Res2", again)
+            if out.ok and not out2.ok:
+                ctx.fail("%s:second-use-of-the-same-inputs-raises-%s" % (cmd, out2.inner() or out2.err), {"large_raster": list(shape)})
+                return
+
+
 def run_case(ctx, case):
     if case.get("kind") == "model":
         return run_model(ctx, case)
+    if case.get("kind") == "big":
+        return run_big(ctx, case)
     import random
     rng = random.Random(case["rseed"])
     libs = case["libs"]
